@@ -1316,4 +1316,59 @@ example : (XPath.get 20 flatRoot ['[', 'k', '=', '2', ']', '/', 'f'] .none) = (f
 example : (XPath.first 20 flatRoot ['/', 'f'] .none) = (flatRoot, .ok (.list .n0 [.str ['a'], .str ['b']])) :=
   (C06_star_list_root .n0 flatList ['f'] .none plainKey_f (by decide) 20 (by decide) _ (by simp [slash])).2.2
 
+/-! ## literal values a condition cannot express (finding C06-g, open)
+
+`PlainLit v` (the hypothesis of every predicate theorem above) excludes blanks, quotes, brackets, `/`, `=`, `~`, `*`, `?`, `%` and the
+texts `true()` / `false()`.  The property quantifies over "all literal values v occurring or not occurring in the data … quoted or
+unquoted v"; for a value outside `PlainLit` that DOES occur in the data the engine selects nothing (or other records): the path is
+split on `/` before the quotes are looked at, the operator table is searched inside the quotes, and the parsed condition is written
+back to text and parsed again twice (`[k=='v']`, then `[text()==v]`), each time stripping blanks and one layer of quotes (and
+percent-decoding).  Counter-examples, evaluated by the model (which agrees with the implementation on them); the reference
+comprehension selects the record in every case. -/
+
+def litTree (v : Str) : Val :=
+  .dict .n0 [(['r'], .list .n0 [.dict .n0 [(['k'], .str v), (['f'], .str ['h', 'i', 't'])], .dict .n0 [(['k'], .str ['A']), (['f'], .str ['o'])]])]
+def litRecs (v : Str) : List Val :=
+  [.dict .n0 [(['k'], .str v), (['f'], .str ['h', 'i', 't'])], .dict .n0 [(['k'], .str ['A']), (['f'], .str ['o'])]]
+
+/-- **C06-g, `~` inside a quoted literal**: `r[k='a~b']/f` misses although one record has `k == 'a~b'` (the operator table finds
+`~` inside the quotes: key `k='a`, value `b'`); the `text()` form misses too -/
+theorem C06_literal_tilde_cex :
+    selectWhere ['k'] ['f'] (fieldEq ['a', '~', 'b']) (litRecs ['a', '~', 'b']) = [.str ['h', 'i', 't']] ∧
+    (XPath.get 60 (litTree ['a', '~', 'b']) ['r', '[', 'k', '=', '\'', 'a', '~', 'b', '\'', ']', '/', 'f'] (.str ['D'])).2 = .ok (.str ['D']) ∧
+    (XPath.get 60 (litTree ['a', '~', 'b'])
+      ['r', '/', 'k', '[', 't', 'e', 'x', 't', '(', ')', '=', '\'', 'a', '~', 'b', '\'', ']', '/', '.', '.', '/', 'f'] (.str ['D'])).2
+      = .ok (.str ['D']) := by
+  decide +kernel
+
+/-- **C06-g, `/` inside a quoted literal**: `r[k='a/b']/f` misses (the path is split on `/` first: tokens `r[k='a` and `b']`) -/
+theorem C06_literal_slash_cex :
+    selectWhere ['k'] ['f'] (fieldEq ['a', '/', 'b']) (litRecs ['a', '/', 'b']) = [.str ['h', 'i', 't']] ∧
+    (XPath.get 60 (litTree ['a', '/', 'b']) ['r', '[', 'k', '=', '\'', 'a', '/', 'b', '\'', ']', '/', 'f'] (.str ['D'])).2 = .ok (.str ['D']) := by
+  decide +kernel
+
+/-- **C06-g, a blank at the end of a quoted literal - the two forms the property declares equivalent differ**: `r[k=' x']/f`
+misses (the re-serialised `[text()== x]` is stripped), `r/k[text()=' x']/../f` selects the record -/
+theorem C06_literal_blank_cex :
+    selectWhere ['k'] ['f'] (fieldEq [' ', 'x']) (litRecs [' ', 'x']) = [.str ['h', 'i', 't']] ∧
+    (XPath.get 60 (litTree [' ', 'x']) ['r', '[', 'k', '=', '\'', ' ', 'x', '\'', ']', '/', 'f'] (.str ['D'])).2 = .ok (.str ['D']) ∧
+    (XPath.get 60 (litTree [' ', 'x'])
+      ['r', '/', 'k', '[', 't', 'e', 'x', 't', '(', ')', '=', '\'', ' ', 'x', '\'', ']', '/', '.', '.', '/', 'f'] (.str ['D'])).2
+      = .ok (.list .n0 [.str ['h', 'i', 't']]) := by
+  decide +kernel
+
+/-- **C06-g, a literal that is itself quoted**: `r[k="'a'"]/f` misses (the second parse takes the inner quotes off too), the
+`text()` form selects the record -/
+theorem C06_literal_quoted_cex :
+    selectWhere ['k'] ['f'] (fieldEq ['\'', 'a', '\'']) (litRecs ['\'', 'a', '\'']) = [.str ['h', 'i', 't']] ∧
+    (XPath.get 60 (litTree ['\'', 'a', '\'']) ['r', '[', 'k', '=', '"', '\'', 'a', '\'', '"', ']', '/', 'f'] (.str ['D'])).2 = .ok (.str ['D']) ∧
+    (XPath.get 60 (litTree ['\'', 'a', '\''])
+      ['r', '/', 'k', '[', 't', 'e', 'x', 't', '(', ')', '=', '"', '\'', 'a', '\'', '"', ']', '/', '.', '.', '/', 'f'] (.str ['D'])).2
+      = .ok (.list .n0 [.str ['h', 'i', 't']]) := by
+  decide +kernel
+
+/-- the same paths with a plain literal select the record (the witnesses are not vacuous) -/
+example : (XPath.get 60 (litTree ['a', 'b']) ['r', '[', 'k', '=', '\'', 'a', 'b', '\'', ']', '/', 'f'] (.str ['D'])).2
+    = .ok (.list .n0 [.str ['h', 'i', 't']]) := by decide +kernel
+
 end N0.C06
